@@ -211,7 +211,9 @@ def check_capture_sizes(ctx):
             hists.append(h)
     runs = [("redis", hists, M.hist_line), ("http", hists, M.hist_line)]
     khists = M.keyed_histories(ctx.rng, "amqp", True)[:120]
-    runs += [("amqp", khists, M.keyed_line), ("http2", khists, M.keyed_line)]
+    # amqphb: a heartbeat frame in front of every second message of a half (its bytes belong to the next message's size)
+    runs += [("amqp", khists, M.keyed_line), ("amqphb", khists, M.keyed_line), ("http2", khists, M.keyed_line)]
+    # (kafka is not part of this: its capture size is the size field the message declares, not a reading of the progress counter)
     for proto, hists, liner in runs:
         rc, out = ctx.vh("vh-match", ["seq"], inp="\n".join(liner(proto, h) for h in hists) + "\n", timeout=900)
         lines = [l for l in out.split("\n") if l.startswith("{")]
